@@ -68,10 +68,12 @@ mutual
     | .computed r, n => .ok (r, n)
     | .ttu ts cu, n => .ok (cu ++ " from " ++ ts, n)
     | .union cs, n =>
+        if cs.isEmpty then .error (.nesting ty rel) else   -- an operator without operands has no DSL
         match parseChildren ty rel rs cs n with
         | .ok (parts, n') => .ok ("(" ++ " or ".intercalate (hoistParts cs parts) ++ ")", n')
         | .error e => .error e
     | .inter cs, n =>
+        if cs.isEmpty then .error (.nesting ty rel) else
         match parseChildren ty rel rs cs n with
         | .ok (parts, n') => .ok ("(" ++ " and ".intercalate (hoistParts cs parts) ++ ")", n')
         | .error e => .error e
@@ -111,10 +113,12 @@ def parseTop (ty rel : String) (rs : List RelRef) : Userset → Except PrintErr 
         | .error e => .error e
         | .ok (ss, n2) => .ok (bs ++ " but not " ++ ss, n2)
   | .union cs =>
+      if cs.isEmpty then .error (.nesting ty rel) else
       match parseChildren ty rel rs cs 0 with
       | .ok (parts, n) => .ok (" or ".intercalate (hoistParts cs parts), n)
       | .error e => .error e
   | .inter cs =>
+      if cs.isEmpty then .error (.nesting ty rel) else
       match parseChildren ty rel rs cs 0 with
       | .ok (parts, n) => .ok (" and ".intercalate (hoistParts cs parts), n)
       | .error e => .error e
